@@ -25,6 +25,8 @@ pub struct Variant {
     pub declared_expr_segment: bool,
     /// the start function is a local function `$init` that is also exported as `s_exp`
     pub local_start: bool,
+    /// a second memory (bodies that copy between memories; V8 in node 20 cannot run these, the structural comparison can)
+    pub two_mem: bool,
 }
 
 #[derive(Clone, Copy, Debug, PartialEq, Eq)]
@@ -47,7 +49,8 @@ pub enum Target {
 /// with the positional `loop_at`, and its back edge is a `br_if` to the loop itself
 /// "param-block": the new body passes a value into a block whose type (one parameter, one result)
 /// is made with `InstrSeqType::new`
-pub const BODIES: [&str; 9] = ["const", "arg", "call-other", "global", "unreachable", "scratch", "bulk", "loop", "param-block"];
+/// "mem-copy": the new body copies from the first memory to the second (positional builder method)
+pub const BODIES: [&str; 10] = ["const", "arg", "call-other", "global", "unreachable", "scratch", "bulk", "loop", "param-block", "mem-copy"];
 
 /// WAT of the module. `replaced`: None = original; Some((target, body, which_export)) = expected
 fn wat(v: &Variant, replaced: Option<(Target, usize, usize)>) -> String {
@@ -59,6 +62,7 @@ fn wat(v: &Variant, replaced: Option<(Target, usize, usize)>) -> String {
             3 => "(global.set $g (local.get 0)) (global.get $g)".into(),
             5 => "(local i32) (local.set 1 (i32.add (local.get 0) (i32.const 1))) (i32.add (local.get 1) (local.get 0))".into(),
             8 => "(local.get 0) (block (param i32) (result i32) (i32.const 1) (i32.add))".into(),
+            9 => "(memory.copy 1 0 (i32.const 0) (i32.const 8) (i32.const 4)) (local.get 0)".into(),
             6 => "(memory.init $d (i32.const 8) (i32.const 0) (i32.const 0)) (data.drop $d) (local.get 0)".into(),
             7 => "(loop $l (local.set 0 (i32.shr_u (local.get 0) (i32.const 1))) (br_if $l (local.get 0))) (local.get 0)".into(),
             _ => "(unreachable)".into(),
@@ -71,6 +75,7 @@ fn wat(v: &Variant, replaced: Option<(Target, usize, usize)>) -> String {
             3 => "(global.set $g (i32.const 5))".into(),
             5 => "(local i32) (local.set 0 (i32.const 3)) (global.set $g (local.get 0))".into(),
             8 => "(i32.const 3) (block (param i32) (result i32) (i32.const 1) (i32.add)) (global.set $g)".into(),
+            9 => "(memory.copy 1 0 (i32.const 0) (i32.const 8) (i32.const 4))".into(),
             6 => "(data.drop $d)".into(),
             7 => "(loop $l (global.set $g (i32.shr_u (global.get $g) (i32.const 1))) (br_if $l (global.get $g)))".into(),
             _ => "(unreachable)".into(),
@@ -98,7 +103,11 @@ fn wat(v: &Variant, replaced: Option<(Target, usize, usize)>) -> String {
     }
     s += "  (import \"env\" \"mg\" (global $g (mut i32)))\n";
     s += "  (table (export \"tab\") 4 funcref)\n";
-    s += "  (memory (export \"mem\") 1)\n  (data $d (i32.const 0) \"hello\")\n";
+    s += "  (memory (export \"mem\") 1)\n";
+    if v.two_mem {
+        s += "  (memory (export \"mem1\") 1)\n";
+    }
+    s += "  (data $d (i32.const 0) \"hello\")\n";
     let other_for_a = if v.two_imports { "b" } else { "loc" };
     if rep_a {
         s += &format!("  (func $a (type $t) {})\n", body_t(rb, other_for_a));
@@ -191,6 +200,7 @@ fn edit(orig: &[u8], v: &Variant, target: Target, body: usize) -> Result<Vec<u8>
         let scratch = if body == 5 { Some(m.locals.add(ValType::I32)) } else { None };
         let pblock = walrus::ir::InstrSeqType::new(&mut m.types, &[ValType::I32], &[ValType::I32]);
         let mem = m.memories.iter().next().map(|x| x.id()).ok_or("no memory")?;
+        let mem1 = m.memories.iter().nth(1).map(|x| x.id()).unwrap_or(mem);
         let dat = m.data.iter().next().map(|x| x.id()).ok_or("no data")?;
         match target {
             Target::ImportA | Target::ImportB => {
@@ -228,6 +238,10 @@ fn edit(orig: &[u8], v: &Variant, target: Target, body: usize) -> Result<Vec<u8>
                             blk.i32_const(1).binop(walrus::ir::BinaryOp::I32Add);
                         });
                     }
+                    9 => {
+                        // builder order: (src, dst)
+                        b.i32_const(0).i32_const(8).i32_const(4).memory_copy(mem, mem1).local_get(args[0]);
+                    }
                     _ => {
                         b.unreachable();
                     }
@@ -260,6 +274,9 @@ fn edit(orig: &[u8], v: &Variant, target: Target, body: usize) -> Result<Vec<u8>
                         b.i32_const(3).block(pblock, |blk| {
                             blk.i32_const(1).binop(walrus::ir::BinaryOp::I32Add);
                         }).global_set(g);
+                    }
+                    9 => {
+                        b.i32_const(0).i32_const(8).i32_const(4).memory_copy(mem, mem1);
                     }
                     _ => {
                         b.unreachable();
@@ -307,6 +324,10 @@ fn edit(orig: &[u8], v: &Variant, target: Target, body: usize) -> Result<Vec<u8>
                             blk.i32_const(1).binop(walrus::ir::BinaryOp::I32Add);
                         });
                     }
+                    9 => {
+                        // builder order: (src, dst)
+                        b.i32_const(0).i32_const(8).i32_const(4).memory_copy(mem, mem1).local_get(args[0]);
+                    }
                     _ => {
                         b.unreachable();
                     }
@@ -348,7 +369,7 @@ pub fn plan_one(v: &Variant, t: Target, body: usize) -> Result<Planned, String> 
     if t == Target::ExportLoc && v.double_export {
         expected.push(assemble(&wat(v, Some((t, body, 1))))?);
     }
-    let cfg = json!({"with_start": v.with_start, "reexport": v.reexport, "double_export": v.double_export, "two_imports": v.two_imports, "dup_names": v.dup_names, "ref_func_loc": v.ref_func_loc, "declared_expr_segment": v.declared_expr_segment, "local_start": v.local_start, "target": format!("{:?}", t), "body": body});
+    let cfg = json!({"with_start": v.with_start, "reexport": v.reexport, "double_export": v.double_export, "two_imports": v.two_imports, "dup_names": v.dup_names, "ref_func_loc": v.ref_func_loc, "declared_expr_segment": v.declared_expr_segment, "local_start": v.local_start, "two_mem": v.two_mem, "target": format!("{:?}", t), "body": body});
     Ok(Planned {
         case: Case { family: "replace".into(), coords: format!("{:?} {:?} body={}", v, t, BODIES[body]), wasm: orig.clone(), cfg },
         orig,
@@ -363,7 +384,7 @@ pub fn plan() -> Vec<Planned> {
     let mut out = vec![];
     for bits in 0..144u32 {
         // the third block of 48: ref_func_loc together with an expression-form declared segment
-        let v = Variant { with_start: bits & 1 != 0, reexport: bits & 2 != 0, double_export: bits & 4 != 0, two_imports: bits & 8 != 0, dup_names: ((bits / 16) % 3) as u8, ref_func_loc: bits >= 48, declared_expr_segment: bits >= 96, local_start: false };
+        let v = Variant { with_start: bits & 1 != 0, reexport: bits & 2 != 0, double_export: bits & 4 != 0, two_imports: bits & 8 != 0, dup_names: ((bits / 16) % 3) as u8, ref_func_loc: bits >= 48, declared_expr_segment: bits >= 96, local_start: false, two_mem: false };
         if bits >= 96 && (v.dup_names != 0 || v.reexport) {
             continue;
         }
@@ -388,12 +409,28 @@ pub fn plan() -> Vec<Planned> {
     }
     // a local start function that is also exported: replacing that export, or anything else, leaves the start section alone
     for bits in 0..4u32 {
-        let v = Variant { with_start: false, reexport: bits & 1 != 0, double_export: bits & 2 != 0, two_imports: false, dup_names: 0, ref_func_loc: false, declared_expr_segment: false, local_start: true };
+        let v = Variant { with_start: false, reexport: bits & 1 != 0, double_export: bits & 2 != 0, two_imports: false, dup_names: 0, ref_func_loc: false, declared_expr_segment: false, local_start: true, two_mem: false };
         for t in [Target::ExportStart, Target::ExportLoc, Target::ImportA] {
             for body in 0..9 {
                 if t == Target::ExportStart && body == 1 {
                     continue;
                 }
+                match plan_one(&v, t, body) {
+                    Ok(p) => out.push(p),
+                    Err(e) => panic!("C18 generator: {}", e),
+                }
+            }
+        }
+    }
+    // two memories: replacement bodies that copy from one to the other
+    for bits in 0..2u32 {
+        let v = Variant { with_start: bits & 1 != 0, reexport: false, double_export: false, two_imports: false, dup_names: 0, ref_func_loc: false, declared_expr_segment: false, local_start: false, two_mem: true };
+        let mut targets = vec![Target::ImportA, Target::ExportLoc];
+        if v.with_start {
+            targets.push(Target::ImportS);
+        }
+        for t in targets {
+            for body in [0usize, 9] {
                 match plan_one(&v, t, body) {
                     Ok(p) => out.push(p),
                     Err(e) => panic!("C18 generator: {}", e),
@@ -470,6 +507,7 @@ fn replan(c: &Case) -> Option<Planned> {
         ref_func_loc: c.cfg["ref_func_loc"].as_bool().unwrap_or(false),
         declared_expr_segment: c.cfg["declared_expr_segment"].as_bool().unwrap_or(false),
         local_start: c.cfg["local_start"].as_bool().unwrap_or(false),
+        two_mem: c.cfg["two_mem"].as_bool().unwrap_or(false),
     };
     plan_one(&v, target_of(c.cfg["target"].as_str()?), c.cfg["body"].as_u64()? as usize).ok()
 }
